@@ -120,6 +120,8 @@ Section Final.
     - apply ref_EString; auto.
     - apply ref_ENumTags; auto.
     - apply ref_EGetTag; auto.
+    - apply ref_ESectionTyped; auto.
+    - apply ref_RefetchDwarf; auto.
   Qed.
 
   (* ================================================================ every finite history *)
